@@ -70,9 +70,11 @@ struct Case {
     keys: Vec<(u64, u64)>,
 }
 
+#[derive(serde::Serialize, serde::Deserialize)]
 struct CaseResult {
     id: usize,
     reference: String, // outcome class
+    detail: String,
     ref_digest: String,
     n_files: usize,
     digests: Vec<String>,
@@ -82,11 +84,22 @@ struct CaseResult {
     runs: usize,
 }
 
+/// Scratch output directory of this process: tmpfs when available (file creation and
+/// deletion in parallel on the disk file system serialises on its journal), else
+/// /verif/scratch.  Removed at exit; nothing in it is needed by a later command.
 fn scratch_root() -> PathBuf {
-    simcore::verif_root()
-        .join("scratch")
-        .join("hash-sim")
-        .join(std::process::id().to_string())
+    let base = match std::env::var_os("VERIF_SCRATCH") {
+        Some(p) => PathBuf::from(p),
+        None => {
+            let shm = PathBuf::from("/dev/shm");
+            if shm.is_dir() && std::fs::create_dir_all(shm.join("verif-hash-sim")).is_ok() {
+                shm.join("verif-hash-sim")
+            } else {
+                simcore::verif_root().join("scratch").join("hash-sim")
+            }
+        }
+    };
+    base.join(std::process::id().to_string())
 }
 
 static WORKER_SEQ: AtomicUsize = AtomicUsize::new(0);
@@ -140,6 +153,7 @@ fn run_case_inner(c: &Case, stop_at_first: bool) -> CaseResult {
     let mut res = CaseResult {
         id: c.id,
         reference: reference.class.clone(),
+        detail: reference.detail.chars().take(200).collect(),
         ref_digest: reference.digest(),
         n_files: reference.files.len(),
         digests: vec![],
@@ -403,6 +417,7 @@ fn main() {
     let mut emit_log: Option<PathBuf> = None;
     let mut selfcheck = false;
     let mut only: Option<String> = None;
+    let mut shard: Option<(usize, usize, PathBuf)> = None;
     let mut i = 1;
     while i < args.len() {
         match args[i].as_str() {
@@ -419,6 +434,14 @@ fn main() {
                 emit_log = args.get(i).map(PathBuf::from);
             }
             "--selfcheck" => selfcheck = true,
+            "--shard" => {
+                // worker process: "--shard <i> <n> <result file>"
+                let si: usize = args.get(i + 1).and_then(|s| s.parse().ok()).unwrap_or(0);
+                let sn: usize = args.get(i + 2).and_then(|s| s.parse().ok()).unwrap_or(1);
+                let out = args.get(i + 3).map(PathBuf::from).unwrap_or_default();
+                shard = Some((si, sn, out));
+                i += 3;
+            }
             "--only" => {
                 i += 1;
                 only = args.get(i).cloned();
@@ -437,7 +460,9 @@ fn main() {
         harness_error(&e);
     }
     let _ = std::fs::remove_dir_all(scratch_root());
-    let code = if let Some(p) = replay_file {
+    let code = if let Some((si, sn, out)) = shard {
+        run_shard(tier, only.as_deref(), si, sn, &out)
+    } else if let Some(p) = replay_file {
         replay(&p)
     } else if selfcheck {
         run_selfcheck()
@@ -446,6 +471,91 @@ fn main() {
     };
     let _ = std::fs::remove_dir_all(scratch_root());
     std::process::exit(code);
+}
+
+/// Worker process: runs the cases with id % n == i sequentially on one thread (plus the
+/// per-run key thread).  Multi-threading inside one process scales badly here (every run
+/// maps a large stack and spawns `rustfmt`: address-space lock contention), processes scale
+/// linearly.
+fn run_shard(tier: Tier, only: Option<&str>, si: usize, sn: usize, out: &Path) -> i32 {
+    let seed = simcore::env_seed();
+    let budget = budget_for(tier);
+    let mut cases = build_cases(seed, tier, &budget);
+    if let Some(o) = only {
+        cases.retain(|c| c.origin == o || c.origin.strip_prefix("corpus:") == Some(o));
+    }
+    let mut f = std::io::BufWriter::new(std::fs::File::create(out).unwrap_or_else(|e| harness_error(&format!("shard output: {e}"))));
+    // interleave cheap and expensive cases: position in the list, not the id, decides the shard
+    for (pos, c) in cases.iter().enumerate() {
+        if pos % sn != si {
+            continue;
+        }
+        let r = run_case(c, true);
+        let _ = writeln!(f, "{}", serde_json::to_string(&r).unwrap());
+    }
+    let _ = writeln!(
+        f,
+        "{{\"shard_done\":{si},\"runs\":{},\"keys\":{},\"spawns\":{}}}",
+        RUNS.load(Ordering::Relaxed),
+        seam::KEYS_SERVED.load(Ordering::Relaxed),
+        seam::SPAWNS_STUBBED.load(Ordering::Relaxed)
+    );
+    let _ = f.flush();
+    simcore::EXIT_OK
+}
+
+fn run_sharded(tier: Tier, only: Option<&str>, n_cases: usize, workers: usize) -> Vec<CaseResult> {
+    let exe = std::env::current_exe().unwrap();
+    let dir = scratch_root().join("shards");
+    std::fs::create_dir_all(&dir).unwrap();
+    let n = workers.min(n_cases.max(1));
+    let mut children = vec![];
+    for i in 0..n {
+        let out = dir.join(format!("shard-{i}.jsonl"));
+        let mut cmd = std::process::Command::new(&exe);
+        cmd.args(["--tier", tier.as_str(), "--shard", &i.to_string(), &n.to_string()])
+            .arg(&out)
+            .stdout(std::process::Stdio::null());
+        if let Some(o) = only {
+            cmd.args(["--only", o]);
+        }
+        match cmd.spawn() {
+            Ok(c) => children.push((c, out)),
+            Err(e) => harness_error(&format!("cannot start shard {i}: {e}")),
+        }
+    }
+    let mut results: Vec<CaseResult> = vec![];
+    for (mut c, out) in children {
+        let st = c.wait();
+        if !matches!(st, Ok(s) if s.success()) {
+            harness_error(&format!("shard process failed: {st:?}"));
+        }
+        let text = std::fs::read_to_string(&out).unwrap_or_default();
+        let mut done = false;
+        for l in text.lines() {
+            if l.starts_with("{\"shard_done\"") {
+                done = true;
+                if let Ok(v) = serde_json::from_str::<Value>(l) {
+                    RUNS.fetch_add(v["runs"].as_u64().unwrap_or(0), Ordering::Relaxed);
+                    seam::KEYS_SERVED.fetch_add(v["keys"].as_u64().unwrap_or(0), Ordering::Relaxed);
+                    seam::SPAWNS_STUBBED.fetch_add(v["spawns"].as_u64().unwrap_or(0), Ordering::Relaxed);
+                }
+                continue;
+            }
+            match serde_json::from_str::<CaseResult>(l) {
+                Ok(r) => results.push(r),
+                Err(e) => harness_error(&format!("bad shard line: {e}")),
+            }
+        }
+        if !done {
+            harness_error("shard output incomplete");
+        }
+    }
+    results.sort_by_key(|r| r.id);
+    if results.len() != n_cases {
+        harness_error(&format!("expected {n_cases} case results, got {}", results.len()));
+    }
+    results
 }
 
 fn budget_for(tier: Tier) -> Budget {
@@ -486,8 +596,7 @@ fn run_batch(tier: Tier, emit_log: Option<&Path>, only: Option<&str>) -> i32 {
         cases.len(),
         budget.n_keys
     );
-    let results: Vec<CaseResult> =
-        simcore::par_map(cases.len(), workers, 256 << 10, |i| run_case(&cases[i], true));
+    let results: Vec<CaseResult> = run_sharded(tier, only, cases.len(), workers);
 
     // event log + hash (determinism: same spec => same hash in any process at any worker count)
     let mut log = Fnv::new();
@@ -526,6 +635,13 @@ fn run_batch(tier: Tier, emit_log: Option<&Path>, only: Option<&str>) -> i32 {
             if c.designed_ties > 0 {
                 tie_grammars.insert(simcore::fnv_hex(c.text.as_bytes()));
             }
+        }
+    }
+    let mut panic_infos = 0;
+    for (c, r) in cases.iter().zip(results.iter()) {
+        if r.reference == "panic" && panic_infos < 12 {
+            panic_infos += 1;
+            say!("INFO: generator panicked (same under every key; C26's business, no C24 verdict): {} opts={} :: {}", c.origin, c.opts.short(), r.detail.replace('\n', " "));
         }
     }
     for c in cases.iter().filter(|c| c.gram.is_some()).take(2) {
@@ -605,7 +721,7 @@ fn run_batch(tier: Tier, emit_log: Option<&Path>, only: Option<&str>) -> i32 {
     ev.set("keys_per_case", json!(budget.n_keys + 1));
     ev.set("reference_outcome_classes", json!(classes));
     ev.set("accepted_grammars_with_designed_tie", json!(tie_grammars.len()));
-    ev.set("faults_fired", json!({"hash_key_perturbation": evaluations, "seam_keys_served": seam::KEYS_SERVED.load(Ordering::Relaxed)}));
+    ev.set("faults_fired", json!({"hash_key_perturbation": evaluations, "seam_keys_served": seam::KEYS_SERVED.load(Ordering::Relaxed), "rustfmt_spawns_answered_by_simulator": seam::SPAWNS_STUBBED.load(Ordering::Relaxed)}));
     ev.set("event_log_hash", json!(log.hex()));
     ev.set("workers", json!(workers));
     ev.set("split_cases", json!(split_cases.len()));
